@@ -130,6 +130,16 @@ def sched_stages(tier):
             "plain_sources": ["harness/sched/sched.cpp"], "kinds": ["sched"], "shards": 4}
     tsan = {"name": "sched-explore-tsan", "driver": "drv_sched", "config": "shimtsan", "sources": ["harness/drv_sched.cpp"],
             "plain_sources": ["harness/sched/sched.cpp"], "kinds": ["sched"], "shards": 4, "env": SCHED_TSAN_ENV}
+    model = {"name": "promela-model", "driver": "c13_model", "config": "shim",
+             "prebuilt": os.path.join(vlib.VERIF, "bin/c13_model.py"),
+             "sources": [], "args": [], "kinds": ["model", "model-conformance"], "shards": 1}
+    if tier == "thorough":
+        return [model,
+                dict(fast, args=["--bound", "-1", "--bound_h2", "2", "--deadline", "2400"]),
+                dict(tsan, args=["--bound", "2", "--bound_h2", "1", "--freepass", "1", "--deadline", "1800"])]
+    return [model,
+            dict(fast, args=["--bound", "2", "--bound_h2", "1", "--deadline", "120"]),
+            dict(tsan, args=["--bound", "1", "--bound_h2", "0", "--h1cases", "3", "--freepass", "1", "--deadline", "150"])]
     if tier == "thorough":
         # all interleavings (no preemption bound) without TSan; bound 2 with TSan in every schedule
         return [dict(fast, args=["--bound", "-1", "--bound_h2", "2", "--deadline", "2400"]),
